@@ -254,16 +254,32 @@ def r4(ctx):
     ctx.covered("implicit limit 1 for file-less select lists: guard evaluated on 2 limits x 11 select lists", 22, distinct_keys=[PARSE], exhaustive=True)
     if not ok:
         ctx.violation("parse/implicit-limit", ctx.where(PARSE), "limit may be forced to 1 only when it is 0 and no selected expression needs a file (%s)" % why)
-    # parse_limit: the number after `limit`, error otherwise
+    # parse_limit: the number after `limit`, an error for anything else after `limit`, 0 (and the cursor left where it was) when the
+    # clause is absent: the function is evaluated (finite interpreter; the parser's cursor is its lexem list and index) on the
+    # five shapes of what can stand at the cursor
+    import interp
     lh = ctx.anchor_hir(PARSE_LIMIT)
-    ok = any(c["k"] == "MCall" and c["m"] == "parse" for c in walk_exprs(lh)) and \
-        sum(1 for x in walk_exprs(lh) if x["k"] == "Call" and x.get("ctor") and short(x["callee"], 1) == "Err") >= 2 and \
-        any(x["k"] == "Call" and x.get("ctor") and short(x["callee"], 1) == "Ok" and render(x["args"][0]) == "0" for x in walk_exprs(lh))
+    lps = ctx.prog.fns[PARSE_LIMIT]["params"]
+    V = interp.V
+    shapes = [([V("Lexem::Limit"), V("Lexem::RawString", ["5"]), V("Lexem::Into")], ("ok", 5), 2), ([V("Lexem::Limit"), V("Lexem::String", ["12"])], ("ok", 12), 2),
+              ([V("Lexem::Limit"), V("Lexem::RawString", ["x"])], ("err",), None), ([V("Lexem::Limit"), V("Lexem::Into")], ("err",), None), ([V("Lexem::Limit")], ("err",), None),
+              ([V("Lexem::Into"), V("Lexem::RawString", ["json"])], ("ok", 0), 0), ([], ("ok", 0), 0)]
+    ok, why = True, ""
+    for lexems, want, want_index in shapes:
+        selfv = {"lexems": list(lexems), "index": 0, "roots_parsed": True, "where_parsed": True}
+        try:
+            got = interp.Interp(prog=ctx.prog).run(lh, {lps[0]["id"]: selfv})
+        except interp.Undecided as e:
+            ok, why = False, "cannot evaluate parse_limit on %s: %s" % (lexems, e)
+            break
+        g = ("ok", got.args[0]) if isinstance(got, V) and got.name == "Result::Ok" else (("err",) if isinstance(got, V) and got.name == "Result::Err" else ("?", got))
+        if g != want or (want_index is not None and selfv["index"] != want_index):
+            ok, why = False, "at %s parse_limit gives %s and leaves the cursor at %s (expected %s, cursor %s)" % (lexems, got, selfv["index"], want, want_index)
+            break
     ctx.obligation(ok)
-    ctx.covered("parse_limit result classes", 3, distinct_keys=["value", "error", "absent"])
+    ctx.covered("parse_limit evaluated on 7 cursor shapes (value, error, absent; cursor position)", 7, distinct_keys=["value", "error", "absent"], exhaustive=True)
     if not ok:
-        ctx.violation("parse_limit", ctx.where(PARSE_LIMIT), "parse_limit must return the parsed number, an error for a non-number, and 0 when absent")
-
+        ctx.violation("parse_limit", ctx.where(PARSE_LIMIT), "parse_limit must return the parsed number, an error for a non-number, and 0 when absent: %s" % why)
 
 RULES = [
     ("C06-R1", "TopN::insert eviction predicate, victim side and bookkeeping", r1),
